@@ -3,19 +3,19 @@
 
    All theorems quantify over every label list ls: every number of callers, every order of caller,
    receiver, closer, timer and server actions (every schedule), every placement of timeouts,
-   cancellations, write failures and closes.  The hypotheses about the environment are predicates on ls:
+   cancellations, write failures and closes.  The one hypothesis about the environment is a predicate on ls:
      honest (init n) ls      the server answers only requests it has received completely, each at most
-                             once, with that request's stream id and content;
-     body_errors_fatal ls    after a failed read of a response body no further bytes of that body arrive
-                             (the real code does not ensure this: Refuted.v, known finding
-                             body-timeout-misroute). *)
+                             once, with that request's stream id and content.
+   (Until the fix of finding body-timeout-misroute the theorems also needed "after a failed read of a
+   response body no further bytes of that body arrive"; recv now closes the connection on such an error
+   and the model discharges that by itself.  Refuted.v keeps the pre-fix behaviour as a regression fact.) *)
 From GocqlV Require Import Lib.Base C01.Model C01.Spec C01.Proofs1 C01.Proofs2 C01.Proofs2c C01.Proofs3
   C01.Proofs4 C01.Proofs6 C01.Proofs7 C01.Proofs8.
 
 (* Whatever a caller is handed on call.resp - a response frame, an ERROR frame (both RTok), or a body
    read error - is the content the server sent for that caller's own request. *)
 Theorem C01_response_to_own_request : forall n ls s c t,
-  0 < n -> run (init n) ls = Some s -> honest (init n) ls -> body_errors_fatal ls ->
+  0 < n -> run (init n) ls = Some s -> honest (init n) ls ->
   handed (callers s c) t -> t = c.
 Proof. exact own_response. Qed.
 Print Assumptions C01_response_to_own_request.
@@ -23,10 +23,10 @@ Print Assumptions C01_response_to_own_request.
 (* The receiver's lookup: whenever a frame is at the head of the wire and a call is registered under its
    stream id, that call is the request the frame answers. *)
 Theorem C01_lookup_finds_owner : forall n ls s id t rest c,
-  0 < n -> run (init n) ls = Some s -> honest (init n) ls -> body_errors_fatal ls ->
+  0 < n -> run (init n) ls = Some s -> honest (init n) ls ->
   closed s = false -> s2c s = (id, t) :: rest -> lookup id (calls s) = Some c -> c = t.
 Proof.
-  intros n ls s id t rest c Hn Hr Hh Hb. destruct (reach_inv n ls s Hn Hr Hh Hb) as [_ [I1 _]].
+  intros n ls s id t rest c Hn Hr Hh. destruct (reach_inv n ls s Hn Hr Hh) as [_ [I1 _]].
   apply lookup_owner; exact I1.
 Qed.
 Print Assumptions C01_lookup_finds_owner.
@@ -35,22 +35,21 @@ Print Assumptions C01_lookup_finds_owner.
    after t has timed out or was cancelled - t still holds the id, the id is reserved in the allocator, and
    no caller can be given it: a late response cannot reach a later request. *)
 Theorem C01_no_reuse_while_answer_due : forall n ls s id t,
-  0 < n -> run (init n) ls = Some s -> honest (init n) ls -> body_errors_fatal ls ->
+  0 < n -> run (init n) ls = Some s -> honest (init n) ls ->
   answer_due s id t ->
   holds (callers s t) /\ sid (callers s t) = id /\ In id (held s) /\ forall c, step s (Alloc c id) = None.
 Proof.
-  intros n ls s id t Hn Hr Hh Hb. destruct (reach_inv n ls s Hn Hr Hh Hb) as [_ [I1 _]].
+  intros n ls s id t Hn Hr Hh. destruct (reach_inv n ls s Hn Hr Hh) as [_ [I1 _]].
   apply due_holds; exact I1.
 Qed.
 Print Assumptions C01_no_reuse_while_answer_due.
 
-(* A stream id has at most one holder, and c.calls maps an id to its holder (no hypothesis on body errors
-   is needed beyond the common ones; stated separately because C08's allocator contract is its premise). *)
+(* A stream id has at most one holder (stated separately because C08's allocator contract is its premise). *)
 Theorem C01_one_holder_per_id : forall n ls s c1 c2,
-  0 < n -> run (init n) ls = Some s -> honest (init n) ls -> body_errors_fatal ls ->
+  0 < n -> run (init n) ls = Some s -> honest (init n) ls ->
   holds (callers s c1) -> holds (callers s c2) -> sid (callers s c1) = sid (callers s c2) -> c1 = c2.
 Proof.
-  intros n ls s c1 c2 Hn Hr Hh Hb. destruct (reach_inv n ls s Hn Hr Hh Hb) as [_ [I1 _]].
+  intros n ls s c1 c2 Hn Hr Hh. destruct (reach_inv n ls s Hn Hr Hh) as [_ [I1 _]].
   apply (j_owner s I1).
 Qed.
 Print Assumptions C01_one_holder_per_id.
@@ -80,11 +79,11 @@ Definition ex_run : list label :=
 
 Example C01_nonvacuous :
   exists s, run (init 128) ex_run = Some s
-    /\ honest (init 128) ex_run /\ body_errors_fatal ex_run
+    /\ honest (init 128) ex_run
     /\ ph (callers s 2) = PDone (OResp (RTok 2)) /\ ph (callers s 1) = PDone OTimeout /\ held s = [].
 Proof.
   eexists. split; [vm_compute; reflexivity|]. split; [apply honestb_sound; vm_compute; reflexivity|].
-  split; [apply fatalb_sound; vm_compute; reflexivity|]. vm_compute. auto.
+  vm_compute. auto.
 Qed.
 
 (* a state in which an answer is due for a caller that has already given up *)
